@@ -39,6 +39,9 @@ def main():
         return rc
 
     chk = Check(prop, tier, seed)
+    from core import linecov
+    repo_root = os.environ.get("VERIF_REPO", "/repo")
+    cov_on = linecov.start(repo_root)
     try:
         obligations, discharged, problems = proofs.obligations_for(prop, getattr(mod, "EXPECTED", []), tier)
     except FileNotFoundError as ex:
@@ -61,6 +64,11 @@ def main():
         chk.violation("proof-obligation", {"theorem_or_correspondence": problems,
                                            "checker": "cd /verif/lean && lake build && lake env lean AptMirror/Audit.lean"},
                       "; ".join(problems), no_input=True)
+    if cov_on:
+        try:
+            chk.coverage_extra["anchored_line_coverage"] = linecov.report(repo_root, linecov.anchors_of(prop))
+        except Exception as ex:  # measurement only
+            chk.coverage_extra["anchored_line_coverage"] = f"unavailable: {ex!r}"
     rc = chk.finish(level=getattr(mod, "LEVEL", "proof"), rule=getattr(mod, "RULE", ""))
     fsutil.cleanup_work()
     return rc
